@@ -6,6 +6,11 @@ use std::collections::{HashMap, HashSet};
 pub trait Img {
     fn len(&self) -> u64;
     fn read_at(&self, off: u64, buf: &mut [u8]);
+    /// For sparse images whose untouched bytes are all zero: offsets of the materialised pages (and the page size)
+    /// that intersect [off, off+len). None = not sparse / unknown, the caller has to read everything.
+    fn zero_sparse_pages(&self, _off: u64, _len: u64) -> Option<(u64, Vec<u64>)> {
+        None
+    }
 }
 
 impl Img for Vec<u8> {
@@ -375,8 +380,98 @@ impl Geom {
     }
 
     pub fn count_free(&self, img: &dyn Img) -> u64 {
-        let t = self.fat_table(img);
-        t[2..].iter().filter(|v| **v == 0).count() as u64
+        self.fat_view(img).count_free()
+    }
+}
+
+/// FAT values of clusters 0..=max_cluster: dense table, or only the non-zero entries of a sparse volume
+#[derive(Clone, Debug)]
+pub enum FatView {
+    Dense(Vec<u32>),
+    Sparse { nonzero: HashMap<u32, u32>, len: u64 },
+}
+
+impl FatView {
+    pub fn get(&self, n: u32) -> u32 {
+        match self {
+            FatView::Dense(v) => v.get(n as usize).copied().unwrap_or(0),
+            FatView::Sparse { nonzero, .. } => nonzero.get(&n).copied().unwrap_or(0),
+        }
+    }
+    pub fn len(&self) -> u64 {
+        match self {
+            FatView::Dense(v) => v.len() as u64,
+            FatView::Sparse { len, .. } => *len,
+        }
+    }
+    /// (cluster, value) of every non-zero entry with cluster >= 2, ascending
+    pub fn nonzero(&self) -> Vec<(u32, u32)> {
+        match self {
+            FatView::Dense(v) => v.iter().enumerate().skip(2).filter(|(_, x)| **x != 0).map(|(i, x)| (i as u32, *x)).collect(),
+            FatView::Sparse { nonzero, .. } => {
+                let mut r: Vec<(u32, u32)> = nonzero.iter().filter(|(k, _)| **k >= 2).map(|(k, v)| (*k, *v)).collect();
+                r.sort();
+                r
+            }
+        }
+    }
+    pub fn count_free(&self) -> u64 {
+        match self {
+            FatView::Dense(v) => v[2..].iter().filter(|x| **x == 0).count() as u64,
+            FatView::Sparse { nonzero, len } => (*len - 2) - nonzero.keys().filter(|k| **k >= 2).count() as u64,
+        }
+    }
+}
+
+impl Geom {
+    /// FAT of the active copy; uses the sparse representation when the image can tell which pages were ever written
+    pub fn fat_view(&self, img: &dyn Img) -> FatView {
+        let n = self.max_cluster() as u64 + 1;
+        let base = self.fat_off(self.active_copy());
+        let bytes = match self.width {
+            12 => n + n / 2 + 2,
+            16 => n * 2,
+            _ => n * 4,
+        };
+        if self.width == 32 && n > 400_000 {
+            if let Some((psz, pages)) = img.zero_sparse_pages(base, bytes) {
+                let mut nonzero = HashMap::new();
+                for p in pages {
+                    let lo = p.max(base);
+                    let hi = (p + psz).min(base + bytes);
+                    if hi <= lo {
+                        continue;
+                    }
+                    // align to entries
+                    let first = (lo - base + 3) / 4;
+                    let last = (hi - base) / 4;
+                    if last <= first {
+                        continue;
+                    }
+                    let buf = rdv(img, base + first * 4, ((last - first) * 4) as usize);
+                    for i in 0..(last - first) as usize {
+                        let v = u32::from_le_bytes([buf[4 * i], buf[4 * i + 1], buf[4 * i + 2], buf[4 * i + 3]]) & 0x0FFF_FFFF;
+                        if v != 0 {
+                            nonzero.insert((first as usize + i) as u32, v);
+                        }
+                    }
+                    // an entry straddling a page boundary cannot happen: pages are 4-byte aligned relative to the volume
+                    // start only if base is; handle the unaligned case by re-reading boundary entries
+                    if (base % 4) != 0 {
+                        for e in [first.saturating_sub(1), last] {
+                            if e < n {
+                                let v = rd32(img, base + e * 4) & 0x0FFF_FFFF;
+                                if v != 0 {
+                                    nonzero.insert(e as u32, v);
+                                }
+                            }
+                        }
+                    }
+                }
+                return FatView::Sparse { nonzero, len: n };
+            }
+        }
+        FatView::Dense(self.fat_table(img))
     }
 }
 
@@ -568,7 +663,7 @@ pub struct Decoded {
     pub findings: Vec<Finding>,
     pub owner: HashMap<u32, usize>,
     pub objects: Vec<ObjInfo>,
-    pub fat: Vec<u32>,
+    pub fat: FatView,
     pub free: u64,
 }
 
@@ -679,7 +774,7 @@ pub fn parse_run_backwards_with(pending: &[&Slot], short: &[u8; 11], idx_mask: u
 struct Walker<'a> {
     img: &'a dyn Img,
     g: Geom,
-    fat: Vec<u32>,
+    fat: FatView,
     findings: Vec<Finding>,
     owner: HashMap<u32, usize>,
     objects: Vec<ObjInfo>,
@@ -715,7 +810,7 @@ impl<'a> Walker<'a> {
             }
             self.owner.insert(c, obj);
             out.push(c);
-            let v = self.fat[c as usize];
+            let v = self.fat.get(c);
             if self.g.is_eoc(v) {
                 break;
             }
@@ -1043,7 +1138,7 @@ pub fn check_short_name(n: &[u8; 11]) -> Result<(), String> {
 
 pub fn decode(img: &dyn Img, opts: DecodeOpts) -> Result<Decoded, String> {
     let g = Geom::parse(img)?;
-    let fat = g.fat_table(img);
+    let fat = g.fat_view(img);
     let mut w = Walker {
         img,
         g: g.clone(),
@@ -1062,11 +1157,8 @@ pub fn decode(img: &dyn Img, opts: DecodeOpts) -> Result<Decoded, String> {
     // FAT-level checks
     let maxc = g.max_cluster();
     let mut lost = 0u64;
-    let mut free = 0u64;
-    for c in 2..=maxc {
-        let v = w.fat[c as usize];
-        if v == 0 {
-            free += 1;
+    for (c, v) in w.fat.nonzero() {
+        if c > maxc {
             continue;
         }
         if v == g.bad_mark() {
@@ -1085,6 +1177,7 @@ pub fn decode(img: &dyn Img, opts: DecodeOpts) -> Result<Decoded, String> {
     if lost > 4 {
         w.err(Fk::Lost, format!("{} lost clusters in total", lost));
     }
+    let free = w.fat.count_free();
     // reserved entries
     let f0 = g.fat_raw(img, g.active_copy(), 0);
     let want0 = match g.width {
